@@ -155,6 +155,10 @@ def shard_validate(module, cfg_text, items, shards=14, workers=1, timeout=1800, 
             raise MachineryError("trace validation (%s): %d states for %d items\n%s" % (
                 module, res.distinct, len(chunks[s]), res.stdout[-1500:]))
         out = ["ok"] * len(chunks[s])
+        nrej = sum(1 for tagname, _ in res.printed if tagname == "REJECT")
+        if nrej != res.stdout.count('"REJECT"'):
+            raise MachineryError("trace validation (%s): %d REJECT markers in TLC's output but %d parsed" % (
+                module, res.stdout.count('"REJECT"'), nrej))
         for tagname, rest in res.printed:
             if tagname == "REJECT":
                 n, clause = rest.split(",", 1)
